@@ -85,7 +85,23 @@ def gen_cloud(rng, kind=None):
         params.update(tolerance=3.0, min_match=3, min_delta=0.0, max_delta=np.inf, min_angle=np.pi / 10, min_points=10)
     use_cand = bool(rng.integers(0, 3) == 0)
     candv = [a + rng.normal(0, 0.2, 2), b + rng.normal(0, 0.2, 2), a + b] if use_cand else None
-    return dict(kind=kind, pts=pts, w=w, zero=pts[0].copy(), params=params, cand=candv, true=true, lattice=(zero, a, b))
+    argmode = 'all'
+    if kind != 'small_exact':
+        r = rng.random()
+        if r < 0.12:
+            # a peak position that occurs twice (a lattice point or an outlier, never the zero point): the difference vectors then contain (0, 0)
+            j = int(rng.integers(1, len(pts)))
+            pts, w = np.vstack([pts, pts[j]]), np.append(w, float(rng.uniform(0.3, 2.0)))
+            params['min_delta'] = 0.0
+        elif r < 0.2:
+            # a zero-length vector among the user's candidates
+            candv = [np.zeros(2), a + rng.normal(0, 0.2, 2), b + rng.normal(0, 0.2, 2)]
+            candv = [candv[i] for i in rng.permutation(3)]
+            params['min_delta'] = 0.0
+        elif r < 0.32:
+            # optional arguments left out: the elevations (or values and elevations) then default to ones, whatever the values are
+            argmode = str(rng.choice(['values_only', 'positions_only']))
+    return dict(kind=kind, pts=pts, w=w, zero=pts[0].copy(), params=params, cand=candv, true=true, lattice=(zero, a, b), argmode=argmode)
 
 
 def run_full(c, record=None):
@@ -99,7 +115,9 @@ def run_full(c, record=None):
             return m
         matcher._find_best_vector_match = spy
     cand = None if c['cand'] is None else np.array(c['cand'])
-    return matcher, core.call_guarded(matcher.full_match, centers=c['pts'], zero=np.asarray(c['zero']), cand=cand, refineds=c['pts'], peak_values=c['w'], peak_elevations=c['w'])
+    am = c.get('argmode', 'all')
+    kw = dict(refineds=c['pts'], peak_values=c['w'], peak_elevations=c['w']) if am == 'all' else (dict(peak_values=c['w']) if am == 'values_only' else {})
+    return matcher, core.call_guarded(matcher.full_match, centers=c['pts'], zero=np.asarray(c['zero']), cand=cand, **kw)
 
 
 def stmt_failure(c):
@@ -109,7 +127,8 @@ def stmt_failure(c):
         return 'full_match raised %s: %s' % (type(e).__name__, str(e)[:200])
     p = c['params']
     n = len(c['pts'])
-    strong = c['w'] >= p['min_weight']
+    we = c['w'] if c.get('argmode', 'all') == 'all' else np.ones(n)         # the elevations in force (documented default: ones)
+    strong = we >= p['min_weight']
     if not np.array_equal(weak.selector, ~strong):
         return 'weak set is not exactly the peaks with elevation < min_weight'
     zsel = np.array([np.allclose(c['pts'][i], c['zero']) for i in range(n)])
@@ -143,8 +162,8 @@ def stmt_failure(c):
         idx = np.asarray(m.indices, dtype=float)
         A = np.hstack([np.ones((len(idx), 1)), idx])
         if np.linalg.matrix_rank(A) == 3:
-            ww = m.peak_elevations
-            res = m.refineds - (m.zero + idx @ np.array([m.a, m.b]))
+            ww = we[m.selector]
+            res = c['pts'][m.selector] - (m.zero + idx @ np.array([m.a, m.b]))
             g = A.T @ (ww[:, None] * res)
             if (np.abs(g) > 1e-6 * (np.abs(A).T @ (ww[:, None] * (np.abs(res) + 1e-9))) + 1e-7).any():
                 return 'match %d: lattice is not the weighted least-squares fit of its own peaks' % k
@@ -162,7 +181,7 @@ def stmt_failure(c):
 def mk_replay(c, fail):
     return {'kind': 'input', 'call': 'FullMatcher.full_match', 'args': {'kind': c['kind'], 'pts': c['pts'].tolist(), 'w': c['w'].tolist(), 'zero': c['zero'].tolist(),
             'params': {k: (None if (isinstance(v, float) and math.isinf(v)) else v) for k, v in c['params'].items()}, 'cand': None if c['cand'] is None else [v.tolist() for v in c['cand']],
-            'exact_lattice': c['true'] is not None}, 'failure': fail}
+            'exact_lattice': c['true'] is not None, 'argmode': c.get('argmode', 'all')}, 'failure': fail}
 
 
 def replay(body):
@@ -178,7 +197,7 @@ def replay(body):
     a = body['args']
     params = {k: (np.inf if v is None else v) for k, v in a['params'].items()}
     c = dict(kind=a['kind'], pts=np.array(a['pts']), w=np.array(a['w']), zero=np.array(a['zero']), params=params, cand=None if a['cand'] is None else [np.array(v) for v in a['cand']],
-             true=True if a['exact_lattice'] else None)
+             true=True if a['exact_lattice'] else None, argmode=a.get('argmode', 'all'))
     fail = stmt_failure(c)
     print(json.dumps({'failure_now': fail}, indent=1))
     if fail:
@@ -301,7 +320,7 @@ def run(ctx):
             ctx.violation('input', fail, mk_replay(c, fail), signature=('full_match raises ValueError from np.cross on 2-vectors' if 'cross' in str(e) else fail))
             continue
         n = len(c['pts'])
-        filt = c['w'] >= c['params']['min_weight']
+        filt = (c['w'] if c.get('argmode', 'all') == 'all' else np.ones(n)) >= c['params']['min_weight']
         zsel = np.array([bool(np.allclose(c['pts'][i], c['zero'])) for i in range(n)])
         ans = '[' + '; '.join('None' if m is None else 'Some %s' % cb(m) for (_, m) in rec) + ']'
         exprs.append('let o := full_match %d %s %s %s %s in (o_matches o, o_unmatched o, o_weak o, o_calls o, o_ok o)' % (
